@@ -159,6 +159,24 @@ Theorem c19_source2_cache_entities : forall skey ikey nid code_ decode_,
 Proof. exact stated_cache_entities. Qed.
 Print Assumptions c19_source2_cache_entities.
 
+(* Cache.subjects: the subjects the cache lists are the NameIDs that were filed (the subjects of the model's view) *)
+Theorem c19_source2_cache_subjects : forall skey ikey nid code_ decode_,
+  cache_encoding_ok skey ikey nid code_ decode_ -> forall c,
+  src2_cache_subjects decode_ (enc_cache skey ikey c) = enc_subject_list nid (keys c).
+Proof. exact stated_cache_subjects. Qed.
+Print Assumptions c19_source2_cache_subjects.
+
+(* ... and ONLY IF the decoding brings every key back: whatever function stands for ident.decode (total on the keys),
+   if the cache lists exactly the subjects that were filed, it has inverted ident.code on each of them.  (The
+   round-trip hypothesis of cache_encoding_ok is what the NameID pool of harness/c19.py probes on the real code.) *)
+Theorem c19_source2_subjects_need_roundtrip : forall skey ikey nid code_ decode_,
+  cache_encoding_ok skey ikey nid code_ decode_ -> forall (dec : pyval -> pyval) c,
+  (forall s, In s (keys c) -> is_bad (dec (PStr (skey s))) = false) ->
+  src2_cache_subjects dec (enc_cache skey ikey c) = enc_subject_list nid (keys c) ->
+  forall s, In s (keys c) -> dec (PStr (skey s)) = nid s.
+Proof. exact stated_subjects_needs_roundtrip. Qed.
+Print Assumptions c19_source2_subjects_need_roundtrip.
+
 Theorem c19_source2_cache_delete : forall skey ikey nid code_ decode_ sync_,
   cache_encoding_ok skey ikey nid code_ decode_ -> forall c s, NoDup (keys c) ->
   src2_cache_delete code_ sync_ (enc_cache skey ikey c) (nid s) = enc_deleted skey ikey c s.
